@@ -47,7 +47,7 @@ POOL = {
           ["3"], ["4"], ["12345678901234567890", "+12345678901234567890"]],
     "d": [["1.0", "1.00", "1", "+1.0", "01.0", "1."], ["2.5", "2.50", "+2.5", "02.5"], ["0.0", "-0.0", "0", "+0", ".0"],
           [".5", "0.5", "0.50", "+.5"], ["-1.5", "-1.50", "-01.5"], ["10", "10.0", "10.00"], ["3.25"], ["2"]],
-    "s": [["a"], ["b"], ["A"], [" a"], ["a b"], ["a  b"], ["1"], ["1.0"], ["c"], ["d"]],
+    "s": [["a"], ["b"], ["A"], [" a"], ["a b"], ["a  b"], ["1"], ["1.0"], ["c"], ["d"], ["x<y"], ["a&b"], ["A 1"]],
     "t": [["a", " a", "a ", "  a  "], ["b", " b"], ["a b", "a  b", " a   b "], ["A"], ["1"], ["1.0"], ["c"], ["d"]],
     "D": [["2001-01-01"], ["2001-01-02"], ["2001-01-01Z", "2001-01-01+00:00", "2001-01-01-00:00"],
           ["2001-01-02Z", "2001-01-02+00:00"], ["1999-12-31"], ["2004-02-29"]],
@@ -75,43 +75,74 @@ def esc(s):
 
 
 # ---------------------------------------------------------------------------------------------------------------
+ATTR_NS2 = "urn:other"
+
+
 def attr_qname(i):
-    """attribute index -> name in instance documents and XPaths: t0..t2 unqualified, 3.. qualified (namespace urn:attr)"""
-    return "t%d" % i if i < 3 else "t:g%d" % (i - 3)
+    """attribute index -> name in instance documents and XPaths: t0..t2 unqualified, 3..5 t:g0.. (namespace urn:attr),
+    6..7 o:h0.. (namespace urn:other)"""
+    return "t%d" % i if i < 3 else ("t:g%d" % (i - 3) if i < 6 else "o:h%d" % (i - 6))
 
 
-def render_import_xsd(case):
-    """the schema of the namespace urn:attr: global attribute declarations g0.. (None when the case has none)"""
+def leaf_qname(i):
+    """leaf element index -> name: l0..l2 in no namespace, 3 = t:m0 (urn:attr), 4 = o:m1 (urn:other)"""
+    return "l%d" % i if i < 3 else ("t:m0" if i == 3 else "o:m%d" % (i - 3))
+
+
+def render_import_xsd(case, which=0):
+    """the schema of the namespace urn:attr (which=0) / urn:other (which=1): global attribute declarations and one global
+    simple-typed element (None when the case has none)"""
     if len(case["atypes"]) <= 3:
         return None
-    o = ['<?xml version="1.0"?>\n<xs:schema xmlns:xs="%s" targetNamespace="%s" %s>\n' % (XS, ATTR_NS, NSDECL)]
+    ns = (ATTR_NS, ATTR_NS2)[which]
+    o = ['<?xml version="1.0"?>\n<xs:schema xmlns:xs="%s" xmlns:ta="%s" targetNamespace="%s" %s>\n' % (XS, ns, ns, NSDECL)]
     for un, ub in sorted(USER_TYPES.items()):
         o.append('<xs:simpleType name="%s"><xs:restriction base="%s"/></xs:simpleType>\n' % ("a" + un, ub))
-    for i, t in enumerate(case["atypes"][3:]):
-        tn = TYPE_NAME[t]
-        if not tn.startswith("xs:"):
-            tn = "ta:a" + tn
-        o.append('<xs:attribute name="g%d" type="%s"/>\n' % (i, tn))
+
+    def tn(t):
+        x = TYPE_NAME[t]
+        return x if x.startswith("xs:") else "ta:a" + x
+    if which == 0:
+        for i, t in enumerate(case["atypes"][3:6]):
+            o.append('<xs:attribute name="g%d" type="%s"/>\n' % (i, tn(t)))
+        if len(case["ltypes"]) > 3:
+            o.append('<xs:element name="m0" type="%s"/>\n' % tn(case["ltypes"][3]))
+    else:
+        for i, t in enumerate(case["atypes"][6:]):
+            o.append('<xs:attribute name="h%d" type="%s"/>\n' % (i, tn(t)))
+        for i in range(4, len(case["ltypes"])):
+            o.append('<xs:element name="m%d" type="%s"/>\n' % (i - 3, tn(case["ltypes"][i])))
     o.append('</xs:schema>\n')
-    return "".join(o).replace("<xs:schema ", '<xs:schema xmlns:ta="%s" ' % ATTR_NS, 1)
+    return "".join(o)
+
+
+def xp_text(x):
+    """XPath as written in the schema document ('~' stands for a blank in the request tokens)"""
+    return x.replace("~", " ")
+
+
+def canon_xpath(x):
+    """abbreviated form without white space (used by the class predicates of the check only)"""
+    return x.replace("~", "").replace("attribute::", "@").replace("child::", "")
 
 
 def render_xsd(case):
     nl, na, nc = len(case["ltypes"]), len(case["atypes"]), case["nc"]
     qual = na > 3
     o = ['<?xml version="1.0"?>\n<xs:schema xmlns:xs="%s" %s%s>\n'
-         % (XS, NSDECL, ' xmlns:t="%s"' % ATTR_NS if qual else "")]
+         % (XS, NSDECL, ' xmlns:t="%s" xmlns:o="%s"' % (ATTR_NS, ATTR_NS2) if qual else "")]
     if qual:
         o.append('<xs:import namespace="%s" schemaLocation="@@A@@"/>\n' % ATTR_NS)
+        o.append('<xs:import namespace="%s" schemaLocation="@@B@@"/>\n' % ATTR_NS2)
     for un, ub in sorted(USER_TYPES.items()):
         o.append('<xs:simpleType name="%s"><xs:restriction base="%s"/></xs:simpleType>\n' % (un, ub))
     attrs = "".join('<xs:attribute name="t%d" type="%s"/>' % (i, TYPE_NAME[t]) for i, t in enumerate(case["atypes"][:3]))
-    attrs += "".join('<xs:attribute ref="t:g%d"/>' % i for i in range(na - 3))
+    attrs += "".join('<xs:attribute ref="%s"/>' % attr_qname(i) for i in range(3, na))
     o.append('<xs:complexType name="CT"><xs:choice minOccurs="0" maxOccurs="unbounded">')
     for i in range(nc):
         o.append('<xs:element ref="c%d"/>' % i)
     for i in range(nl):
-        o.append('<xs:element ref="l%d"/>' % i)
+        o.append('<xs:element ref="%s"/>' % leaf_qname(i))
     o.append('</xs:choice>%s</xs:complexType>\n' % attrs)
     for i in range(nc):
         o.append('<xs:element name="c%d" type="CT">' % i)
@@ -120,12 +151,12 @@ def render_xsd(case):
                 continue
             tag = {"u": "unique", "k": "key", "r": "keyref"}[ic["kind"]]
             ref = ' refer="ic%d"' % ic["refer"] if ic["kind"] == "r" else ""
-            o.append('<xs:%s name="ic%d"%s><xs:selector xpath="%s"/>' % (tag, ic["id"], ref, esc(ic["sel"])))
+            o.append('<xs:%s name="ic%d"%s><xs:selector xpath="%s"/>' % (tag, ic["id"], ref, esc(xp_text(ic["sel"]))))
             for f in ic["fields"]:
-                o.append('<xs:field xpath="%s"/>' % esc(f))
+                o.append('<xs:field xpath="%s"/>' % esc(xp_text(f)))
             o.append('</xs:%s>' % tag)
         o.append('</xs:element>\n')
-    for i in range(nl):
+    for i in range(min(nl, 3)):
         nil = ' nillable="true"' if case["lnil"][i] else ""
         if case.get("lplain") and case["lplain"][i]:      # plain simple-typed element (xsi:type to a derived simple type allowed)
             o.append('<xs:element name="l%d"%s type="%s"/>\n' % (i, nil, TYPE_NAME[case["ltypes"][i]]))
@@ -139,23 +170,32 @@ def render_xsd(case):
 
 def render_xml(case):
     o = ['<?xml version="1.0"?>\n']
+    ents = case.get("entities") or {}
+    if ents:
+        o.append("<!DOCTYPE c0 [\n")
+        for n in sorted(ents):
+            o.append('<!ENTITY %s "%s">\n' % (n, ents[n].replace("&", "&#38;#38;").replace("<", "&#38;#60;").replace('"', "&#34;").replace("%", "&#37;")))
+        o.append("]>\n")
 
     def go(n, root):
         kind, idx, attrs, body = n[:4]
-        name = "%s%d" % (kind, idx)
+        name = "c%d" % idx if kind == "c" else leaf_qname(idx)
         o.append("<" + name)
         if len(n) > 4 and n[4]:
             o.append(' xsi:type="%s"' % TYPE_NAME[n[4]])
         if root:
             o.append(' xmlns:xsi="http://www.w3.org/2001/XMLSchema-instance" xmlns:xs="%s" %s%s @@L@@'
-                     % (XS, NSDECL, ' xmlns:t="%s"' % ATTR_NS if len(case["atypes"]) > 3 else ""))
+                     % (XS, NSDECL, ' xmlns:t="%s" xmlns:o="%s"' % (ATTR_NS, ATTR_NS2) if len(case["atypes"]) > 3 else ""))
         for a in sorted(attrs):
             o.append(' %s="%s"' % (attr_qname(a), esc(attrs[a])))
         if kind == "l":
             if body is None:
                 o.append(' xsi:nil="true"/>')
             else:
-                o.append(">%s</%s>" % (esc(body), name))
+                # n[5]: the same character data in another spelling (CDATA sections, character / entity references,
+                # comments and processing instructions in between)
+                frag = n[5] if len(n) > 5 and n[5] is not None else esc(body)
+                o.append(">%s</%s>" % (frag, name))
         else:
             if not body:
                 o.append("/>")
@@ -168,6 +208,40 @@ def render_xml(case):
     go(case["tree"], True)
     o.append("\n")
     return "".join(o)
+
+
+def spell_text(rng, case, text):
+    """an XML fragment whose character data is `text`, spelled with CDATA sections, character references, internal
+    entity references, and comments / processing instructions between the pieces"""
+    if text == "":
+        return ""
+    # cut the text into 1..3 pieces
+    cuts = sorted(set(rng.randrange(1, len(text)) for _ in range(rng.choice([0, 1, 1, 2])))) if len(text) > 1 else []
+    pieces = [text[a:b] for a, b in zip([0] + cuts, cuts + [len(text)])]
+    out = []
+    allow_ent = case.get("_entities_ok", True)
+    for k, pc in enumerate(pieces):
+        if k > 0 and rng.random() < 0.5:
+            out.append(rng.choice(["<!--c-->", "<?pi x?>", "<!-- a b -->", "<![CDATA[]]>"]))
+        r = rng.random()
+        if r < 0.3 and "]]>" not in pc:
+            out.append("<![CDATA[%s]]>" % pc)
+        elif r < 0.55:
+            out.append("".join(("&#x%X;" % ord(c)) if rng.random() < 0.6 else (("&#%d;" % ord(c)) if rng.random() < 0.5 else esc(c))
+                               for c in pc))
+        elif r < 0.75 and allow_ent:
+            ents = case.setdefault("entities", {})
+            name = None
+            for en, ev in ents.items():
+                if ev == pc:
+                    name = en
+            if name is None:
+                name = "e%d" % len(ents)
+                ents[name] = pc
+            out.append("&%s;" % name)
+        else:
+            out.append(esc(pc))
+    return "".join(out)
 
 
 def render_abstract(case):
@@ -199,9 +273,10 @@ def render_abstract(case):
 def request(case, scheme="always", scanner="ig", load="pool"):
     """scanner may carry the flag "+p" (a no-op PSVIHandler is installed)"""
     xsd = hexs(render_xsd(case))
-    imp = render_import_xsd(case)
-    if imp is not None:
-        xsd += ":" + hexs(imp)
+    for which in (0, 1):
+        imp = render_import_xsd(case, which)
+        if imp is not None:
+            xsd += ":" + hexs(imp)
     return "ic %s %s %s %s %s %s" % (scheme, scanner, load, xsd, hexs(render_xml(case)), render_abstract(case))
 
 
@@ -340,8 +415,11 @@ def gen_record_tree(rng, case, size):
             der = [x for x in der if x in case["_xsipool"]]
         if plain and der and rng.random() < case.get("_xsitype", 0.0):
             ov = rng.choice(der)                      # xsi:type: a type derived from the declared one
-            return ["l", i, {}, pick_value(rng, ov), ov]
-        return ["l", i, {} if plain else gen_attrs(rng, case, 0.3), pick_value(rng, ty)]
+            v = pick_value(rng, ov)
+            return ["l", i, {}, v, ov, spell_text(rng, case, v) if rng.random() < case.get("_spell", 0.0) else None]
+        v = pick_value(rng, ty)
+        return ["l", i, {} if plain else gen_attrs(rng, case, 0.3), v, None,
+                spell_text(rng, case, v) if rng.random() < case.get("_spell", 0.0) else None]
 
     def cont(i, depth):
         budget[0] -= 1
@@ -377,10 +455,19 @@ def gen_fields(rng, nf, leafsel, na=3):
 
 
 def gen_fields1(rng, nf, leafsel, na=3):
+    qual = na > 3
+
     def at():
-        # namespace-qualified attributes are preferred when the case has them
-        i = rng.randrange(3, na) if (na > 3 and rng.random() < 0.6) else rng.randrange(3)
+        # namespace-qualified attributes and namespace wildcards are preferred when the case has them
+        if qual and rng.random() < 0.25:
+            return "@" + rng.choice(["t:*", "t:*", "o:*", "p:*"])
+        i = rng.randrange(3, na) if (qual and rng.random() < 0.6) else rng.randrange(3)
         return "@" + attr_qname(i)
+
+    def lf():
+        if qual and rng.random() < 0.35:
+            return rng.choice(["t:m0", "o:m1", "t:*", "o:*", "t:*", "r:*"])
+        return "l%d" % rng.randrange(3)
     out = []
     for _ in range(nf):
         r = rng.random()
@@ -389,20 +476,50 @@ def gen_fields1(rng, nf, leafsel, na=3):
         elif r < 0.45:
             out.append(at())
         elif r < 0.8:
-            out.append("l%d" % rng.randrange(3))
+            out.append(lf())
         elif r < 0.86:
             out.append("l%d/%s" % (rng.randrange(3), at()))
         elif r < 0.9:
-            out.append(".//l%d" % rng.randrange(3))
+            out.append(".//" + lf())
         elif r < 0.93:
             out.append("%s|%s" % (at(), at()))
         elif r < 0.96:
-            out.append("l%d|l%d" % (rng.randrange(3), rng.randrange(3)))
+            out.append("%s|%s" % (lf(), lf()))
         elif r < 0.98:
             out.append("@*")
         else:
-            out.append("c1/l%d" % rng.randrange(3))
+            out.append("c1/" + lf())
     return out
+
+
+NS_SELECTORS = ["c1/t:m0", "c1/t:*", "*/o:*", ".//t:m0", "c1/t:m0|c1/o:m1", ".//o:*", "c1/p:*"]
+
+
+def spell_xpath(rng, x):
+    """the same XPath in another spelling of the grammar of Structures 3.11.6: child:: / attribute:: axis names instead of
+    the abbreviations, a leading './', white space ('~') around the tokens"""
+    def ws():
+        return rng.choice(["", "", "~", "~~"])
+
+    def step(st):
+        if st.startswith("@"):
+            body = st[1:]
+            return ("@" + ws() + body) if rng.random() < 0.5 else ("attribute" + ws() + "::" + ws() + body)
+        if st == ".":
+            return st
+        return st if rng.random() < 0.6 else ("child" + ws() + "::" + ws() + st)
+    paths = []
+    for pth in x.split("|"):
+        desc = pth.startswith(".//")
+        body = pth[3:] if desc else pth
+        steps = [step(st) for st in body.split("/")]
+        txt = (ws() + "/" + ws()).join(steps)
+        if desc:
+            txt = ".//" + ws() + txt
+        elif body != "." and rng.random() < 0.3:
+            txt = "." + ws() + "/" + ws() + txt
+        paths.append(ws() + txt + ws())
+    return "|".join(paths)
 
 
 def gen_case2(rng, size=14, allow_desc=True):
@@ -428,25 +545,37 @@ def gen_case2(rng, size=14, allow_desc=True):
         case["lplain"] = [True] * nl
         case["_xsitype"] = rng.choice([0.6, 0.9])
         case["_xsipool"] = rng.choice(["isD", "id", "ilh", "sti", "iD"])
-    if rng.random() < 0.5:     # three more attributes: global declarations of another namespace, used through ref=
-        fam2 = [rng.choice(case["atypes"]), rng.choice(case["atypes"]), rng.choice(case["ltypes"])]
-        case["atypes"] = case["atypes"] + [x if x in TYPE_NAME and x != "y" else "s" for x in fam2]
+    qual = rng.random() < 0.5
+    if qual:   # two more namespaces (imported schemas): global attributes t:g0..2, o:h0..1 (used through ref=) and the
+               # global simple-typed elements t:m0, o:m1
+        def okty(x):
+            return x if (x in TYPE_NAME and x != "y") else "s"
+        pool = case["atypes"] + case["ltypes"]
+        case["atypes"] = case["atypes"] + [okty(rng.choice(pool)) for _ in range(5)]
+        case["ltypes"] = case["ltypes"] + [okty(rng.choice(pool)) for _ in range(2)]
+        case["lnil"] = case["lnil"] + [False, False]
+        case["lplain"] = list(case.get("lplain") or [False] * nl) + [True, True]
     na = len(case["atypes"])
     sels = [s for s in SELECTORS if allow_desc or ".//" not in s]
+    if qual:
+        sels = sels + [s for s in NS_SELECTORS if allow_desc or ".//" not in s]
+    # the value of element fields in other spellings (CDATA, character / entity references, comments, PIs)
+    case["_spell"] = rng.choice([0.0, 0.0, 0.3, 0.7])
+    case["_entities_ok"] = rng.random() < 0.5
     nid = 0
     for _ in range(rng.choice([1, 1, 2, 2, 3])):
         elem = rng.choice([0, 0, 0, 0, 1, 2])
         kind = rng.choice("ukk")
         nf = rng.choice([1, 1, 1, 2, 2, 3])
         sel = rng.choice(sels)
-        leafsel = sel.split("|")[0].split("/")[-1].startswith("l")
+        leafsel = sel.split("|")[0].split("/")[-1][:1] in ("l", "t", "o", "p")
         key = {"elem": elem, "kind": kind, "id": nid, "refer": None, "sel": sel, "fields": gen_fields(rng, nf, leafsel, na)}
         case["ics"].append(key)
         nid += 1
         if rng.random() < 0.6:
             relem = elem if rng.random() < 0.75 else 0
             rsel = rng.choice(sels)
-            rleaf = rsel.split("|")[0].split("/")[-1].startswith("l")
+            rleaf = rsel.split("|")[0].split("/")[-1][:1] in ("l", "t", "o", "p")
             # reference fields of the same types where possible: reuse the key's fields half of the time
             rf = list(key["fields"]) if (rng.random() < 0.5 and rleaf == leafsel) else gen_fields(rng, nf, rleaf, na)
             ref = {"elem": relem, "kind": "r", "id": nid, "refer": key["id"], "sel": rsel, "fields": rf}
@@ -458,8 +587,12 @@ def gen_case2(rng, size=14, allow_desc=True):
     case["_nest"] = rng.random() < 0.12      # the root's name (which carries most constraints) also occurs nested
     case["tree"] = gen_record_tree(rng, case, size)
     del case["_nest"]
-    case.pop("_xsitype", None)
-    case.pop("_xsipool", None)
+    for k in ("_xsitype", "_xsipool", "_spell", "_entities_ok"):
+        case.pop(k, None)
+    if rng.random() < 0.3:                    # the XPaths in another spelling of the same grammar
+        for c in case["ics"]:
+            c["sel"] = spell_xpath(rng, c["sel"])
+            c["fields"] = [spell_xpath(rng, f) for f in c["fields"]]
     return case
 
 
